@@ -1,6 +1,6 @@
 P = {
     "gens": [],
-    "theorems": ["C11_bundles"],
+    "theorems": ["C11_bundles", "C11_send_bundle"],
     "rule": "C11 composed with C01: what the TCPCL receiver of Model/Tcpcl.v hands up parses with Model/Bundle.v dec_bundle as the bundle sent",
     "assumptions": [],
     "trusted_base": [],
